@@ -191,16 +191,16 @@ CHECKS = {
         trusted_base=["hand model Model/Downloader.lean"],
     ),
     "C02": dict(
-        modules=["AggkitModel.Properties.C02"],
+        modules=["AggkitModel.Properties.C02", "AggkitModel.Properties.C13"],
         scenarios=[dict(name="aggsender")],
-        generated=["CertFacts"],
+        generated=["CertFacts", "InitialStatus", "FlowBase", "NextHeight"],
         leanchecker=True,
         level_text="Proved in Lean 4 by induction over EVERY operation sequence of any length (L2 blocks, epoch ticks, status ticks, Agglayer status moves, failing Agglayer calls, crashes between iterations, crashes between a submission and its local record, loss of the database, restarts), for both retry settings, BOTH flows (PP and aggchain-prover, incl. every scripted behaviour of the prover and the optimistic-mode flag flipping at any time: a certificate in error is resent as it was only when the type to generate is still its type), any start block, any size limit and any size function: "
                    "C02_chain — only the most recent certificate can be undecided; every certificate the Agglayer ever received has (height, previous exit root, first block) = (height+1, new exit root, last block+1) of the last settled certificate before it, or (0, empty root, start block+1) at the start; it carries exactly the bridge exits and claims of its block range; "
                    "corollaries C02_no_overlap, C02_replacement (a replacement reuses height, previous root and first block of the in-error certificate), C02_after_settled, C02_settled_heights (settled heights are 0,1,2,… without gap or repeat), C02_exactly_once (the exits/claims of the settled certificates in height order are exactly the events of the covered blocks, once, in chain order). "
                    "Proved for every configuration, including Agglayers whose headers carry no previous local exit root (the fallback to the settled record one height below is sound because settled certificates are unique per height: settled_unique). C02_code_facts — the regenerated source facts the model rests on (poll before send in both loop arms; build, submit, then record; the recorded header's fields; the open statuses). "
                    "Tie: the real AggSender loop (one iteration per op through the verif hook), real AggSenderSQLStorage, real PPFlow/baseFlow, real status checker, real query layer over the real L2 bridge processor and the real L1 info tree processor, real gRPC client — against a fake Agglayer implementing the gRPC service clients, vs the compiled model (every submission: id, height, metadata-decoded range, exit roots, exit counts; the certificate_info rows after every tick/restart). "
-                   "Monitors (no model involved) evaluate the chain predicate on the fake Agglayer's log at every submission and the exactly-once clause at the end of each world.",
+                   "Monitors (no model involved) evaluate the chain predicate on the fake Agglayer's log at every submission and the exactly-once clause at the end of each world. The two functions that fix where the next certificate starts and at which height on which exit root (getLastSentBlockAndRetryCount, getNextHeightAndPreviousLER) and the start-up decision (initialStatus.process) are translated from the Go source on every run and proved equal to the model functions these theorems are stated over (C13_next_start_is_the_source, C13_next_height_is_the_source, C13_process_is_the_source; Properties/C13 is built and audited by this check as well).",
         level_note="Trusted: Lean kernel; model/code correspondence (generator-bounded); the fake Agglayer fails cleanly (a submission reported as failed was not applied); no L2 reorg inside a world; exit roots are compared through an independently computed root table (deposit-contract algorithm); 35% of the worlds run the aggchain-prover flow (flow_aggchain_prover.go: stored-proof retries, prover cutting the range, failing, or not ready) with a scripted prover, the rest the PP flow; the optimistic mode of the prover flow is not exercised.",
         rule="seeded worlds (12 quick / 60 thorough) of 60/120 random ops: 30% L2 blocks with 0-3 events (bridges incl. native token / max / zero amounts, empty / short / long metadata; claims against finalized L1 info leaves), 22% epoch ticks, 12% status ticks, 18% Agglayer moves along Pending>Proven>Candidate>Settled or to InError (30%), failing header/submit calls, crashes, crashes between submit and store, database loss, transient statement faults in the save transaction, restarts (with and without a failing Agglayer call); both retry settings, start blocks 0-3, size limit in 30% of the worlds, headers without previous exit root in 25%; distinct non-trivial = distinct (height class, #exits, #claims, first-after-restart) of submissions + root/chain shapes",
         assumptions=["the Agglayer applies exactly the submissions it acknowledges", "L2 blocks are not reorged while certificates over them are in flight", "block numbers < 2^32 (metadata offset is 32 bits: DESIGN F8)"],
